@@ -41,6 +41,19 @@ Proof. exact forward_direction. Qed.
 Theorem C04_on_axis_wavenumber : forall lam, 0 < lam -> kz_as lam 0 0 = wavenum lam /\ kz_tf lam 0 0 = wavenum lam.
 Proof. exact kz_on_axis. Qed.
 
+(* ---- band-limited angular spectrum: the cut-off is exactly where the transfer function stops being sampled on a window of
+   extent L (local frequency |z| f / sqrt(1/lam^2 - f^2) <= L/2), it is even in z and never beyond the evanescent boundary *)
+Theorem C04_bl_limit_sampling : forall lam z L f, 0 < lam -> 0 < L -> 0 <= f -> f < 1 / lam ->
+  (Rabs z * f / sqrt (1 / lam ^ 2 - f ^ 2) <= L / 2 <-> f <= bl_limit lam z L).
+Proof. exact bl_limit_sampling. Qed.
+Theorem C04_bl_limit_bounds : forall lam z L, 0 < lam -> 0 < bl_limit lam z L <= 1 / lam.
+Proof. exact bl_limit_pos. Qed.
+Theorem C04_bl_limit_even : forall lam z L, bl_limit lam (- z) L = bl_limit lam z L.
+Proof. exact bl_limit_even. Qed.
+Theorem C04_bl_pass_true : forall lam z Lx Ly fx fy,
+  bl_pass lam z Lx Ly fx fy = true <-> Rabs fx < bl_limit lam z Lx /\ Rabs fy < bl_limit lam z Ly.
+Proof. exact bl_pass_true. Qed.
+
 (* ---- impulse response <-> transfer function: coefficients, prefactor and signs of the Fresnel pair *)
 Theorem C04_ir_tf_pair_coeff : forall lam z, lam <> 0 -> z <> 0 -> - (PI ^ 2 / ir_quad (wavenum lam) z) = tf_quad lam z.
 Proof. exact ir_tf_pair_coeff. Qed.
